@@ -19,7 +19,7 @@ import re
 
 import proggen
 
-STREAMS = ["valid", "wide", "fault", "mut", "cyclic", "deep"]
+STREAMS = ["valid", "wide", "fault", "mut", "cyclic", "deep", "limit"]
 
 REGS = ["r0", "r1", "r2", "r3", "r4", "r5", "r6", "r7", "sp", "pc"]
 ACCS = ["ac0", "ac1", "ac2", "ac3", "ac4", "ac5"]
@@ -64,6 +64,76 @@ def tables():
     if _T is None:
         _T = _tables()
     return _T
+
+
+def _limit_classes():
+    """every value position of the assembler that has a FINITE range, with its limit L read from the implementation where the
+    implementation states it (bit widths of the immediate / offset stubs of the instruction table) and from the documented
+    range of the directive otherwise.  -> list of (class name, weight, L, [templates with {v}], packed?)
+    `packed` positions put several values into one machine word (.rad50: three codes per word), so the place inside the
+    group matters as much as the value."""
+    import impl
+    m = impl.load()
+    fill = {"RegisterOperandStub": "r1", "RegisterModeOperandStub": "(r2)", "FP11RMOperandStub": "ac1", "FP11AccumulatorOperandStub": "ac1"}
+    groups = {}
+    for name, ins in m["insns"].instructions.items():
+        stubs = [type(s).__name__ for s in ins.operands]
+        for k, s in enumerate(ins.operands):
+            t = stubs[k]
+            if t not in ("ImmediateOperandStub", "OffsetOperandStub"):
+                continue
+            bits = len(s.bit_indexes)
+            others = [fill.get(x, "r0") for x in stubs]
+            if t == "ImmediateOperandStub":
+                forms = ["{v}", "#{v}", "<{v}>"]
+                L = 2 ** bits
+                key = f"imm{bits}{'u' if s.unsigned else 's'}"
+            else:
+                forms = [". + {v}", ". - {v}", ".+{v}", ". - <{v}>", "lim0 + {v}", "lim0 - {v}"]
+                L = 2 ** (bits + 1)          # byte distance: the field counts words
+                key = f"off{bits}{'u' if s.unsigned else 's'}"
+            for f in forms:
+                ops = list(others)
+                ops[k] = f
+                groups.setdefault((key, L), []).append(name + " " + ", ".join(ops))
+    out = [(key, 1, L, sorted(ts), False) for (key, L), ts in sorted(groups.items())]
+    out += [
+        ("rad50-code", 4, 40, [".rad50 {pre}<{v}>{post}", ".RAD50 {pre}<{v}>{post}"], True),
+        ("ascii-code", 2, 256, [".ascii {pre}<{v}>{post}", ".asciz {pre}<{v}>{post}", ".ascii <{v}>"], True),
+        ("byte", 1, 256, [".byte {v}", ".byte 1, {v}", ".byte {v}, {v}", ".byte -{v}", ".byte -<{v}>"], False),
+        ("word", 1, 65536, [".word {v}", ".word 1, {v}", "{v}", ".word -{v}", "mov #{v}, r0", "mov #-{v}, r0", "mov {v}(r1), r0", "mov @#{v}, r0", "mov @{v}(r3), r0", "cmp #{v}, #-{v}"], False),
+        ("dword", 1, 2 ** 32, [".dword {v}", ".dword -{v}", ".dword 1, {v}"], False),
+        ("regnum", 1, 8, ["rts %{v}", "mov %{v}, r0", "clr (%{v})+", "mov 2(%{v}), r1", "jsr %{v}, (r1)", "sob %{v}, .", "mul r0, %{v}", "xor %{v}, r1", "clr @-(%<{v}>)"], False),
+        ("address", 1, 65536, [".link {v}", ". = {v}", ".link {v}\nnop", ".link {v} - 2\n.word 1, 2", ". = {v} - 1\n.byte 1, 2", ".blkb {v}", ".blkw {v} / 2", ".link 1000\n.blkb {v} - 1000", ".link 2\n.blkb {v} - 2\nlim9: .word lim9"], False),
+        ("shift-count", 1, 65536, [".word 1 _ {v} >> {v}", "sc = 1 _ {v}", ".word 1 << {v} >> {v}", ".word (1 _ {v}) & 1", ".word 1 >> {v}", ".word -1 >> {v}"], False),
+        ("bk-name", 1, 16, ["make_bin \"{name}\"", "make_bin \"{name}.bin\"", "make_wav \"a.wav\", \"{name}\"", "make_turbo_wav \"a.wav\", \"{name}\""], False),
+    ]
+    return out
+
+
+_LC = None
+
+
+def limit_classes():
+    global _LC
+    if _LC is None:
+        _LC = _limit_classes()
+    return _LC
+
+
+def misreadings(L):
+    """what a limit L turns into when its digits are read in the wrong radix (8 / 10 / 16), or when the bound is
+    taken for a width in bits or for twice / half itself"""
+    out = set()
+    for rep in (oct(L)[2:], str(L), hex(L)[2:]):
+        for base in (8, 10, 16):
+            try:
+                out.add(int(rep, base))
+            except ValueError:
+                pass
+    out |= {2 * L, L // 2, 1 << (L.bit_length()), (1 << (L.bit_length())) - 1}
+    out.discard(L)
+    return sorted(v for v in out if 0 < v <= 4 * L + 64)
 
 
 def coverage_universe():
@@ -530,7 +600,7 @@ class Gen:
             name = self.fresh("k")
             e = self.expr(r.choice([1, 2, 3, 5]))
             self.consts.append(name)
-            return f"{name}{r.choice([' = ', '=', ' == ', '\t=\t'])}{e}"
+            return name + r.choice([' = ', '=', ' == ', '\t=\t']) + str(e)
         if c < 0.87:
             return f". = {r.choice(['. + ' + self.small(), self.num(r.choice([0o1000, 0o2000, 0o100])), self.expr(3)])}"
         if c < 0.92:
@@ -608,6 +678,8 @@ class Gen:
         elif stream == "deep":
             files, fs = self.deep()
             charset = "bk"
+        elif stream == "limit":
+            files, fs = self.limit()
         else:
             raise ValueError(stream)
         # programs without any definition cycle by construction: a 'recursive-definition' report on them is spurious
@@ -833,6 +905,86 @@ class Gen:
             self.fs["big2.bin"] = bytes(30000)
             return 'insert_file "big1.bin"\ninsert_file "big2.bin"\n' + r.choice(["", "make_bin", ".repeat 3 { insert_file \"big1.bin\" }"])
         return pre + r.choice(T)
+
+    # ------------------------------------------------------------------ values just past a limit
+    def limit_value(self, L):
+        """a value from the band around the limit L of a position: half of the time the dense band L-2 .. L+12 (every value),
+        otherwise anything from L-2 up to the farthest misreading of L (its digits in another radix, the next power of two, 2L),
+        the misreadings themselves +-1, L/2 and 2L; for wide limits the band is sampled, its edges always included"""
+        r = self.r
+        mis = misreadings(L)
+        c = r.random()
+        if c < 0.5:
+            return L + r.randrange(-2, 13)
+        if c < 0.7:
+            return r.choice(mis) + r.choice([-1, 0, 0, 1])
+        top = max([m for m in mis if m <= 2 * L + 1] + [L + 16])
+        if c < 0.95:
+            return r.randrange(L - 2, top + 3)
+        return r.choice([0, 1, L - 1, L, L + 1, top])
+
+    def limit_spelling(self, v, pre_defs, post_defs):
+        """the value as a literal in any radix, a constant defined before or after its use, or a sum / difference that only
+        reaches the value after evaluation"""
+        r = self.r
+        c = r.random()
+        if c < 0.45:
+            return self.num(v)
+        s = self.fresh("lv")
+        if c < 0.6:
+            pre_defs.append(f"{s} = {self.num(v)}")
+            return s
+        if c < 0.72:
+            post_defs.append(f"{s} = {self.num(v)}")
+            return s
+        d = r.choice([1, 1, 2, 7, 8, 10])
+        if c < 0.86:
+            (pre_defs if self.p(0.6) else post_defs).append(f"{s} = {self.num(v - d)}")
+            return r.choice([f"{s} + {d}", f"{s}+{d}", f"{d} + {s}"])
+        if c < 0.93:
+            return f"{self.num(v + d)} - {d}"
+        return r.choice([f"{self.num(v)} + 0", f"{self.num(v)}*1", f"({self.num(v)})", f"^C<^C{self.num(v)}>" if v >= 0 else self.num(v)])
+
+    def limit(self):
+        """1-6 statements that put values from the band around a limit into ONE class of bounded value position (every class of
+        limit_classes()), in every place of a packed group: ok or a reported error, never an internal error"""
+        r = self.r
+        classes = limit_classes()
+        name, _, L, templates, packed = r.choice([c for c in classes for _ in range(c[1])])
+        self.tags.append("limit:" + name)
+        pre_defs, post_defs, probes = [], [], []
+        inside = self.p(0.2)        # 1 text in 5 stays on the valid side of the limit (the last valid values must still assemble)
+        if inside:
+            self.tags.append("limit-inside")
+        for _ in range(r.choice([1, 2, 3, 4, 4, 6])):
+            t = r.choice(templates)
+            v = r.choice([0, 1, L // 2 - 1, L // 2, L - 3, L - 2, L - 1, L - 1]) if inside else self.limit_value(L)
+            if self.p(0.08) and not inside:
+                v = -v
+            if "{name}" in t:
+                # a length limit: names of L-2 .. L+3 characters and far beyond, ASCII and two-byte letters
+                n = r.choice([L - 2, L - 1, L, L + 1, L + 2, L + 3, 2 * L, max(0, v)])
+                alpha = r.choice(["abcXYZ019", "ab\u041a\u0416\u044f", "a .", "\u20ac\u212aab"])
+                probes.append(t.replace("{name}", "".join(r.choice(alpha) for _ in range(n))))
+                continue
+            pre = post = ""
+            if packed:
+                q = r.choice(['"', "/"])
+                chunk = lambda: (q + "".join(r.choice("ABZ $.%09") for _ in range(r.choice([0, 1, 1, 2, 3]))) + q if self.p(0.6)
+                                 else "<" + self.num(r.choice([0, 1, 2, 3, 26, L - 1, L - 1, self.limit_value(L)])) + ">")
+                pre = "".join(chunk() for _ in range(r.choice([0, 0, 0, 1, 1, 2, 3]))) + r.choice(["", "", " "])
+                post = r.choice(["", "", " "]) + "".join(chunk() for _ in range(r.choice([0, 0, 1, 1, 2])))
+            t = t.replace("{pre}", pre).replace("{post}", post)
+            while "{v}" in t:
+                t = t.replace("{v}", self.limit_spelling(v, pre_defs, post_defs), 1)
+            probes.append(t)
+        lines = []
+        if self.p(0.25):
+            lines += self.block(r.choice([1, 2, 3]), 0, False)
+        lines += pre_defs + ["lim0:"] + probes + post_defs
+        if self.p(0.25):
+            lines += self.block(r.choice([1, 2, 3]), 0, False)
+        return [("f0.mac", "\n".join(lines) + r.choice(["\n", "\n", ""]))], dict(self.fs)
 
     def include_graph(self):
         """include graphs with cycles (self, 2- and 3-cycles, with and without .once, through './' spellings) and deep chains"""
